@@ -10,6 +10,10 @@ from .ctx import Ctx, PathEnd, NeedFork, Obligation, has_quant
 from .interp import Interp, Frame, PyRaise, _Return, _Break, _Continue, Contract, ClassModel, LoopSpec
 
 
+import os
+_TRACE = bool(os.environ.get("PYVC_TRACE"))
+
+
 class TaskResult:
     def __init__(self, name):
         self.name = name
@@ -33,13 +37,65 @@ def mark_old(ctx, v, depth=0):
             k = z3.Int("k!old")
             it = ctx.sitem(v, k)
             ctx.assume(z3.ForAll([k], z3.Or(it.z == 0, ctx.is_old(it.z))))
+            rng = z3.And(0 <= k, k < ctx.slen(v.z))
             if not v.elem.nullable:
-                ctx.assume(z3.ForAll([k], z3.Implies(z3.And(0 <= k, k < ctx.slen(v.z)), it.z != 0)))
+                ctx.assume(z3.ForAll([k], z3.Implies(rng, it.z != 0)))
+            ctx.assume(z3.ForAll([k], z3.Implies(z3.And(rng, it.z != 0), REF_TYPE(it.z) == v.elem.tag())))
     elif v.kind == "tuple":
         for x in v.items:
             mark_old(ctx, x, depth + 1)
     elif v.kind == "opt":
         mark_old(ctx, v.inner, depth + 1)
+
+
+def heap_axioms(interp, param_types):
+    """well-formedness of the pre-state heap: whatever an existing object reaches through a declared field or list
+    exists before the call, has the declared dynamic type and is non-null unless declared nullable"""
+    ctx = interp.ctx
+    o, k = z3.Int("o!wf"), z3.Int("k!wf")
+    list_types = {}
+
+    def note(t):
+        if isinstance(t, TSList):
+            key = repr(t.elem)
+            if key not in list_types:
+                list_types[key] = t
+                note(t.elem)
+        elif isinstance(t, TTuple):
+            for x in t.ts:
+                note(x)
+        elif isinstance(t, TOpt):
+            note(t.inner)
+    for t in param_types:
+        note(t)
+    for cm in interp.class_models.values():
+        for t in cm.fields.values():
+            note(t)
+
+    def ref_facts(t, r):
+        """facts about a stored reference r of declared type t (TSObj / TSList)"""
+        body = z3.And(ctx.is_old(r), REF_TYPE(r) == t.tag())
+        return z3.Or(r == 0, body) if t.nullable else z3.And(r != 0, body)
+    for cm in interp.class_models.values():
+        owner = z3.And(ctx.is_old(o), REF_TYPE(o) == TSObj(cm.name).tag(), o != 0)
+        for fname, t in cm.fields.items():
+            if isinstance(t, (TSObj, TSList)):
+                r = z3.Select(ctx.field_map(cm.name, fname, "", I), o)
+                ctx.pc.append(z3.ForAll([o], z3.Implies(owner, ref_facts(t, r))))
+            elif isinstance(t, TEnum):
+                r = z3.Select(ctx.field_map(cm.name, fname, "", I), o)
+                n = len(ctx.enum_members(t.ecls))
+                ctx.pc.append(z3.ForAll([o], z3.Implies(owner, z3.And((-1 if t.nullable else 0) <= r, r < n))))
+    for t in list_types.values():
+        if isinstance(t.elem, (TSObj, TSList)):
+            owner = z3.And(ctx.is_old(o), REF_TYPE(o) == t.tag(), o != 0, 0 <= k, k < ctx.slen(o))
+            r = z3.Select(z3.Select(ctx.item_map("", I), o), k)
+            ctx.pc.append(z3.ForAll([o, k], z3.Implies(owner, ref_facts(t.elem, r))))
+        elif isinstance(t.elem, TEnum):
+            owner = z3.And(ctx.is_old(o), REF_TYPE(o) == t.tag(), o != 0, 0 <= k, k < ctx.slen(o))
+            r = z3.Select(z3.Select(ctx.item_map("", I), o), k)
+            n = len(ctx.enum_members(t.elem.ecls))
+            ctx.pc.append(z3.ForAll([o, k], z3.Implies(owner, z3.And((-1 if t.elem.nullable else 0) <= r, r < n))))
 
 
 def run_task(interp_factory, target, contract, name=None, args_builder=None, setup=None, max_paths=20000,
@@ -78,6 +134,10 @@ def run_task(interp_factory, target, contract, name=None, args_builder=None, set
                 elif p in contract.params:
                     t = contract.params[p]
                     vals[p] = t.fresh(ctx, p) if isinstance(t, T) else (t(interp) if callable(t) else t)
+                elif a.vararg is not None and p == a.vararg.arg:
+                    vals[p] = VTuple(())
+                elif a.kwarg is not None and p == a.kwarg.arg:
+                    vals[p] = ctx.new_cell("dict", ([], []))
                 else:
                     d = _default_of(fi, p)
                     if d is None:
@@ -85,11 +145,16 @@ def run_task(interp_factory, target, contract, name=None, args_builder=None, set
                     vals[p] = interp.ev(d, interp.module_frame(fi.module))
                 mark_old(ctx, vals[p])
             entry.vars.update(vals)
+            heap_axioms(interp, [t for t in contract.params.values() if isinstance(t, T)])
+            interp.ghost_env = {}
             for gname, gb in contract.ghosts.items():
                 entry.vars[gname] = gb(interp, entry) if callable(gb) else gb
+                interp.ghost_env[gname] = entry.vars[gname]
             if setup is not None:
                 setup(interp, entry)
             for nm, tx in contract.requires:
+                ctx.assume(interp.truth(interp.eval_spec(tx, entry)))
+            for nm, tx in contract.defs:
                 ctx.assume(interp.truth(interp.eval_spec(tx, entry)))
             ctx.oblige("canary.requires_satisfiable", z3.BoolVal(False), fi.node, kind="canary")
             interp.old_state = interp.snapshot()
@@ -133,6 +198,8 @@ def run_task(interp_factory, target, contract, name=None, args_builder=None, set
             pass
         finally:
             ctx.func_stack.pop()
+        if _TRACE:
+            print("PATH", res.paths, " ".join(ctx.decisions_desc))
         if not ctx.backtrack():
             break
     res.obligations = ctx.obligations
